@@ -55,7 +55,7 @@ func (e *Engine) freshVal(hint string, t types.Type, inv *[]*Term) Val {
 		case u.Kind() == types.UnsafePointer:
 			p := tb.Fresh(hint, BV(64))
 			if inv != nil {
-				*inv = append(*inv, tb.Ult(p, tb.ConstU(preLimit-(1<<32), 64)))
+				*inv = append(*inv, tb.Ult(p, tb.ConstU(e.valLimit()-(1<<32), 64)))
 			}
 			return Scalar{p}
 		case u.Info()&(types.IsInteger|types.IsFloat) != 0:
@@ -66,7 +66,7 @@ func (e *Engine) freshVal(hint string, t types.Type, inv *[]*Term) Val {
 	case *types.Pointer, *types.Map, *types.Chan, *types.Signature:
 		p := tb.Fresh(hint, BV(64))
 		if _, isPtr := u.(*types.Pointer); isPtr && inv != nil {
-			*inv = append(*inv, tb.Ult(p, tb.ConstU(preLimit-(1<<32), 64)))
+			*inv = append(*inv, tb.Ult(p, tb.ConstU(e.valLimit()-(1<<32), 64)))
 		}
 		if _, isSig := u.(*types.Signature); isSig {
 			return FuncV{Handle: p}
@@ -113,6 +113,17 @@ func (e *Engine) freshVal(hint string, t types.Type, inv *[]*Term) Val {
 const addrLimit = 1 << 47
 const preLimit = 1 << 46
 
+// valLimit bounds the addresses a fresh symbolic value may hold: inputs of the
+// function under proof live below preLimit; values that come into being while
+// it runs (results of calls, loop-carried values at a cut loop head) may also
+// point into memory allocated during the call, up to addrLimit.
+func (e *Engine) valLimit() uint64 {
+	if e.dynVals {
+		return addrLimit
+	}
+	return preLimit
+}
+
 // sliceInv: 0 <= len <= cap, region [ptr, ptr+cap*esz) inside the user address
 // space (no wrap-around), nil pointer implies zero capacity.
 func (e *Engine) sliceInv(s SliceV, esz int64) []*Term {
@@ -120,22 +131,24 @@ func (e *Engine) sliceInv(s SliceV, esz int64) []*Term {
 	if esz <= 0 {
 		esz = 1
 	}
-	lim := tb.ConstU(preLimit/uint64(esz), 64)
+	top := e.valLimit()
+	lim := tb.ConstU(top/uint64(esz), 64)
 	return []*Term{
 		tb.Ule(s.Len, s.Cap),
 		tb.Ule(s.Cap, lim),
-		tb.Ule(s.Ptr, tb.ConstU(preLimit, 64)),
-		tb.Ule(tb.Add(s.Ptr, tb.Mul(s.Cap, tb.ConstU(uint64(esz), 64))), tb.ConstU(preLimit, 64)),
+		tb.Ule(s.Ptr, tb.ConstU(top, 64)),
+		tb.Ule(tb.Add(s.Ptr, tb.Mul(s.Cap, tb.ConstU(uint64(esz), 64))), tb.ConstU(top, 64)),
 		tb.Implies(tb.Eq(s.Ptr, tb.ConstU(0, 64)), tb.Eq(s.Cap, tb.ConstU(0, 64))),
 	}
 }
 
 func (e *Engine) stringInv(s StringV) []*Term {
 	tb := e.tb
+	top := e.valLimit()
 	return []*Term{
-		tb.Ule(s.Len, tb.ConstU(preLimit, 64)),
-		tb.Ule(s.Ptr, tb.ConstU(preLimit, 64)),
-		tb.Ule(tb.Add(s.Ptr, s.Len), tb.ConstU(preLimit, 64)),
+		tb.Ule(s.Len, tb.ConstU(top, 64)),
+		tb.Ule(s.Ptr, tb.ConstU(top, 64)),
+		tb.Ule(tb.Add(s.Ptr, s.Len), tb.ConstU(top, 64)),
 		tb.Implies(tb.Eq(s.Ptr, tb.ConstU(0, 64)), tb.Eq(s.Len, tb.ConstU(0, 64))),
 	}
 }
